@@ -30,4 +30,8 @@ def run(ctx, report):
     from rules import c07
     # "what a typed setter stores ... reads back as the value set": a setter that reports success stored something
     c07.run(ctx, Only(report, {"ONCE": "ONCE"}))
+    # "exactly when the raw RLP stored under the key is the canonical encoding": every stored value is exactly one complete item
+    # (validator = decoder row per key, and every content insert is encoder output or validated)
+    from rules import c05
+    c05.run(ctx, Only(report, {"VALID": "VALID", "INV-RLP": "INV-RLP"}))
 
